@@ -3,7 +3,7 @@
 SPECIALS = ["<", ">", "</", "/>", "{{", "}}", "&", "&#", "&#x", "&amp", ";", "\"", "'", "=", ":", "wx:", "wx:if", "wx:for", " ", "\n", "\t",
             " ", " ", "　", "\u0085", "\0", "\\", "?", "??", "?.", "...", "[", "]", "(", ")", "{", "}", "0x", "0xg", "1e", "1e999",
             "99999999999999999999", "0777777777777777777777", "/*", "*/", "<!--", "-->", "<!", "<wxs", "</wxs", "<template", "<slot", "<block",
-            "<include", "<import", "slot:", "model:", "bind:", "data-", "\U0001F600", "é", "𝒳", "﻿", "​", "`", "$", "_", "-", ".", ","]
+            "<include", "<import", "slot:", "model:", "bind:", "data-", "\U0001F600", "é", "首页", "日本", "ab页面", "𝒳", "﻿", "​", "`", "$", "_", "-", ".", ","]
 
 
 def mutate(rng, s, n=None):
